@@ -958,6 +958,47 @@ func (w *World) swapStep() {
 	busy := w.busyRefs(w.host)
 	free := func(u *ledger.Utxo) bool { return !busy[fmt.Sprintf("%s/%d", u.TransactionId(), u.OutputIndex())] }
 	hasYield := map[string]bool{}
+	type ready struct{ y, p *spendable }
+	var readies []ready
+	for _, wl := range w.wallets {
+		var y, p *spendable
+		for _, u := range w.host.Ureg.Utxos(wl.Addr) {
+			s := spendable{u.TransactionId(), u.OutputIndex(), u.Value(w.next(), w.set.HalfLife, w.set.Base, w.set.ILimit), wl}
+			if s.value <= w.set.Fee+2 || !free(u) {
+				continue
+			}
+			if u.IsYielding() && y == nil {
+				c := s
+				y = &c
+			} else if !u.IsYielding() && p == nil {
+				c := s
+				p = &c
+			}
+		}
+		if y != nil && p != nil {
+			readies = append(readies, ready{y, p})
+		}
+	}
+	if len(readies) >= 2 && w.r.Chance(2, 3) {
+		// a triple over two wallets W and Z, each holding a yielding and a plain output: a) Z turns its
+		// yielding output into a plain one, b) W hands its income to Z (W's yielding output spent, a
+		// yielding output for Z), c) W's plain output becomes W's new yielding one. Admitted in that order
+		// all three are pooled; the tick must keep exactly those an honest replay in shuffle order keeps.
+		W, Z := readies[0], readies[1]
+		ta := w.build(&txPlan{ins: []spendable{*Z.y}, outs: []*JOutput{{Z.y.owner.Addr, false, Z.y.value - w.set.Fee - 1}}, ts: w.now})
+		tb := w.build(&txPlan{ins: []spendable{*W.y}, outs: []*JOutput{{Z.y.owner.Addr, true, W.y.value - w.set.Fee - 1}}, ts: w.now})
+		tc := w.build(&txPlan{ins: []spendable{*W.p}, outs: []*JOutput{{W.y.owner.Addr, true, W.p.value - w.set.Fee - 1}}, ts: w.now})
+		ra, rb, rc := w.rec.Admit(ta), w.rec.Admit(tb), w.rec.Admit(tc)
+		w.stats.Count("admit/yield-triple=" + ra + "," + rb + "," + rc)
+		for _, h := range w.helpers {
+			for _, t := range []*ledger.Transaction{ta, tb, tc} {
+				h.Pool.AddTransaction(t, "x", "y")
+			}
+			h.Log.Take()
+		}
+		w.hostTick()
+		return
+	}
 	for _, wl := range w.wallets {
 		var y, p *spendable
 		for _, u := range w.host.Ureg.Utxos(wl.Addr) {
@@ -978,6 +1019,9 @@ func (w *World) swapStep() {
 		}
 		if y == nil || p == nil {
 			continue
+		}
+		if len(readies) == 1 && w.r.Chance(1, 2) && w.setupSwapWallet(busy, wl) {
+			return // a second wallet is being given both kinds: the triple comes next
 		}
 		t1 := w.build(&txPlan{ins: []spendable{*y}, outs: []*JOutput{{wl.Addr, false, y.value - w.set.Fee - 1}}, ts: w.now})
 		t2 := w.build(&txPlan{ins: []spendable{*p}, outs: []*JOutput{{wl.Addr, true, p.value - w.set.Fee - 1}}, ts: w.now})
@@ -1157,4 +1201,55 @@ func (w *World) walletOfKey(pubHex string) *Wallet {
 		}
 	}
 	return nil
+}
+
+// setupSwapWallet: give a wallet other than [except] that has no income a yielding and a plain
+// output, from a free plain output of anybody; two host ticks confirm them
+func (w *World) setupSwapWallet(busy map[string]bool, except *Wallet) bool {
+	hasYield := map[string]bool{}
+	for _, wl := range w.wallets {
+		for _, u := range w.host.Ureg.Utxos(wl.Addr) {
+			if u.IsYielding() {
+				hasYield[wl.Addr] = true
+			}
+		}
+	}
+	for _, l := range [][]*ledger.Transaction{w.host.Pool.Transactions(), w.host.Chain.LastBlockTransactions()} {
+		for _, t := range l {
+			for _, o := range t.Outputs() {
+				if o.IsYielding() {
+					hasYield[o.Address()] = true
+				}
+			}
+		}
+	}
+	var dst *Wallet
+	for _, c := range w.wallets {
+		if c != except && !hasYield[c.Addr] {
+			dst = c
+			break
+		}
+	}
+	if dst == nil {
+		return false
+	}
+	for _, src := range w.wallets {
+		for _, u := range w.host.Ureg.Utxos(src.Addr) {
+			v := u.Value(w.next(), w.set.HalfLife, w.set.Base, w.set.ILimit)
+			if u.IsYielding() || busy[fmt.Sprintf("%s/%d", u.TransactionId(), u.OutputIndex())] || v <= 6*w.set.Fee+100 {
+				continue
+			}
+			half := (v - w.set.Fee) / 2
+			tx := w.build(&txPlan{ins: []spendable{{u.TransactionId(), u.OutputIndex(), v, src}}, outs: []*JOutput{{dst.Addr, true, half}, {dst.Addr, false, v - w.set.Fee - half - 1}}, ts: w.now})
+			w.stats.Count("admit/yield-swap-setup2=" + w.rec.Admit(tx))
+			for _, h := range w.helpers {
+				h.Pool.AddTransaction(tx, "x", "y")
+				h.Log.Take()
+			}
+			w.hostTick()
+			w.hostTick()
+			return true
+		}
+	}
+	return false
 }
